@@ -418,7 +418,13 @@ func (w *World) callSSA(caller *frame, callpos token.Pos, fn *ssa.Function, args
 	if w.funcs != nil {
 		w.funcs[fn]++
 	}
-	fr.env = make(map[ssa.Value]value) // no size hint: most frames bind <= 8 values and then stay in one inline group
+	// environments are recycled (the SSA value → value map of a finished frame is dead: closures copy their bindings)
+	if n := len(w.envPool); n > 0 && w.sched != nil && len(w.sched.threads) == 1 {
+		fr.env = w.envPool[n-1]
+		w.envPool = w.envPool[:n-1]
+	} else {
+		fr.env = make(map[ssa.Value]value, 16)
+	}
 	fr.block = fn.Blocks[0]
 	fr.locals = make([]value, len(fn.Locals))
 	for i, l := range fn.Locals {
@@ -434,6 +440,11 @@ func (w *World) callSSA(caller *frame, callpos token.Pos, fn *ssa.Function, args
 	for fr.block != nil {
 		w.runFrame(fr)
 	}
+	if len(fr.env) <= 64 && len(w.envPool) < 256 && w.sched != nil && len(w.sched.threads) == 1 {
+		clear(fr.env)
+		w.envPool = append(w.envPool, fr.env)
+	}
+	fr.env = nil
 	return fr.result
 }
 
@@ -448,7 +459,11 @@ func (w *World) runFrame(fr *frame) {
 		}
 		if _, ok := p.(targetPanic); !ok {
 			// interpreter bug or host runtime error: report as engine error with location
-			panic(engineError{fmt.Sprintf("internal: %v in %s block %d", p, fr.fn, fr.block.Index) + "\n" + string(stack())})
+			chain := ""
+			for c, n := fr.caller, 0; c != nil && n < 12; c, n = c.caller, n+1 {
+				chain += " <- " + c.fn.String()
+			}
+			panic(engineError{fmt.Sprintf("internal: %v in %s block %d%s", p, fr.fn, fr.block.Index, chain) + "\n" + string(stack())})
 		}
 		fr.panicking = true
 		fr.panic = p
